@@ -31,7 +31,9 @@ ASSUMPTIONS = [
 ]
 HOSTILE = ['=1+2', '=SUM(A1)', '=a"b', 'say "hi"', "it's", 'a!b', '#EMPTY',
            '#empty', '#N/A', '#REF!', "'quoted'", '=', '=""', '"', 'TRUE',
-           '12', ' 4 ', '1E+3', '', 'x\ny', '{1,2}', "='S'!A1"]
+           '12', ' 4 ', '1E+3', '', 'x\ny', '{1,2}', "='S'!A1",
+           # formula / error look-alikes behind white space or a sheet prefix
+           ' =B1+1', '  #N/A', 'DATA!#REF!', ' {=B1*2}', '\t=1+1', ' #EMPTY']
 ERRORS = ['#NULL!', '#DIV/0!', '#VALUE!', '#REF!', '#NAME?', '#NUM!', '#N/A']
 
 
@@ -283,7 +285,7 @@ def check_hostile_dict(case, ctx):
     rng = random.Random('fvmon/C09/hd/%s' % case['id'])
     d = {}
     for i, txt in enumerate(rng.sample(HOSTILE, 10), 1):
-        if txt.startswith('=') or txt.startswith('#') or txt == '':
+        if txt.lstrip()[:1] in ('=', '#', '{') or '!#' in txt or txt == '':
             d['A%d' % i] = '="%s"' % txt.replace('"', '""')
         else:
             d['A%d' % i] = txt
